@@ -27,15 +27,17 @@
    spec: written from the property text alone: the stack must be alive and all three probes
          answered; anything else violates the property, with the barrage as the replay. *)
 From Coq Require Import ZArith Bool List String.
+From Coq Require Uint63.
 From NP Require Import Model.Inbound.
 Import ListNotations.
 Open Scope Z_scope.
 
-(* Compact notation (parsing long list literals dominates the evaluation time otherwise): the bytes
-   of a frame are ONE hexadecimal numeral, two digits per byte behind a leading 1 (0x1 = the empty
-   frame); the observation of a frame is one numeral, one hexadecimal digit per entry behind a
-   leading 1 (entries above 15 are printed as 15; 0x1 = no observation). *)
-Inductive fr := Fr (proto chunk : Z) (bytes : Z) (obs : Z).
+(* Compact notation (the elaboration of long list / numeral literals dominates the evaluation time
+   otherwise): the bytes of a frame are a list of primitive 63-bit integers, each holding up to
+   seven bytes as hexadecimal digits behind a leading 1 (0x1 = no byte); the observation of a frame
+   is one such integer with one hexadecimal digit per entry (entries above 15 are printed as 15;
+   0x1 = no observation). *)
+Inductive fr := Fr (proto chunk : Z) (bytes : list Uint63.int) (obs : Uint63.int).
 
 (* digits of [k] bits each, read from the least significant end of the numeral (structural in
    the binary representation, so decoding is linear in the size of the frame) *)
@@ -49,8 +51,11 @@ Fixpoint dec_pos (bitsPer : nat) (p : positive) (k : nat) (cur w : Z) (acc : lis
   end.
 Definition dec_digits (bitsPer : nat) (z : Z) : list Z :=
   match z with Zpos p => dec_pos bitsPer p 0 0 1 [] | _ => [] end.
-Definition dec_bytes (z : Z) : list Z := dec_digits 8 z.
-Definition dec_obs (z : Z) : list Z := dec_digits 4 z.
+Definition dec_bytes (l : list Uint63.int) : list Z := flat_map (fun i => dec_digits 8 (Uint63.to_Z i)) l.
+Definition dec_obs (i : Uint63.int) : list Z := dec_digits 4 (Uint63.to_Z i).
+
+Inductive case :=
+  CB (mode : Z) (frames : list fr) (total udp : list Z) (echo4 outcome : Z) (probes : list bool) (note : string).
 
 (* the stack the child builds *)
 Definition cfg0 : config :=
